@@ -75,7 +75,7 @@ Print Assumptions c13_locker_pay_predicate.
 
 (* ---- collector ---- *)
 
-(* recorded net fees never go negative, whatever the history (including the known-finding ops) *)
+(* recorded net fees never go negative, whatever the history *)
 Theorem c13_net_fee_nonneg : forall assets apps funds ops la ld,
   forallb valid_fund funds = true -> forallb valid_op ops = true ->
   let s := run (genesis assets apps funds) ops in
@@ -104,11 +104,11 @@ Proof.
 Qed.
 Print Assumptions c13_net_fee_delta.
 
-(* the savings-rate change (WasmUpdateCollectorLookupTable -> LockerIterateRewards) after a history
-   outside the known-finding classes: net fees of (app, asset) fall by exactly what its lockers
+(* the savings-rate change (WasmUpdateCollectorLookupTable -> LockerIterateRewards) after any history
+   (no known-finding class is left): net fees of (app, asset) fall by exactly what its lockers
    are credited, exactly that many coins leave the collector, nothing else moves *)
 Theorem c13_net_fee_delta_rate_change : forall assets apps funds ops app asset lsr sthr dthr lot dlot rws s',
-  forallb valid_fund funds = true -> forallb valid_op ops = true -> forallb kf_free ops = true ->
+  forallb valid_fund funds = true -> forallb valid_op ops = true ->
   let s := run (genesis assets apps funds) ops in
   step s (UpdLookup app asset lsr sthr dthr lot dlot rws) = Ok s' ->
   exists r, 0 <= r /\
@@ -117,8 +117,8 @@ Theorem c13_net_fee_delta_rate_change : forall assets apps funds ops app asset l
     (forall d, bnk (cs s') (A_COLLECTOR, d) = bnk (cs s) (A_COLLECTOR, d) + (if d =? asset then - r else 0)) /\
     (forall keys, holds_C13_delta keys s (UpdLookup app asset lsr sthr dthr lot dlot rws) s' = true).
 Proof.
-  intros assets apps funds ops app asset lsr sthr dthr lot dlot rws s' Hf Hv Hk s H.
-  pose proof (run_cinv ops _ (genesis_cinv assets apps funds Hf) Hv Hk) as HC. fold s in HC.
+  intros assets apps funds ops app asset lsr sthr dthr lot dlot rws s' Hf Hv s H.
+  pose proof (run_cinv ops _ (genesis_cinv assets apps funds Hf) Hv) as HC. fold s in HC.
   assert (H' := H). cbn [step] in H'.
   destruct (update_lookup_eff _ _ _ _ _ _ _ _ _ _ HC H') as (r & Hr & (A1 & A2 & _) & F).
   exists r. split; [exact Hr|]. split; [exact F|]. split; [exact A1|]. split; [exact A2|].
@@ -126,21 +126,21 @@ Proof.
 Qed.
 Print Assumptions c13_net_fee_delta_rate_change.
 
-(* the emergency-shutdown redemption (esm SetUpDebtRedemptionForCollector) after a history outside
-   the known-finding class: every book entry of the app that is listed as a debt asset is taken off
+(* the emergency-shutdown redemption (esm SetUpDebtRedemptionForCollector) after any history:
+   every book entry of the app that is listed as a debt asset is taken off
    the books WHOLE, exactly that many coins of that asset are burnt out of the collector, no other
    app's entry and no other denom moves; in particular the function's `return nil` after a failed
    DecreaseNetFeeCollectedData (coins burnt, books kept) is unreachable *)
 Theorem c13_net_fee_delta_esm_redeem : forall assets apps funds ops app st l s',
-  forallb valid_fund funds = true -> forallb valid_op ops = true -> forallb kf_free ops = true ->
+  forallb valid_fund funds = true -> forallb valid_op ops = true ->
   let s := run (genesis assets apps funds) ops in
   step s (EsmRedeem app st l) = Ok s' ->
   (forall a d, nf_val (cs s') a d = if (a =? app) && esm_has1 l d then 0 else nf_val (cs s) a d) /\
   (forall d, bnk (cs s') (A_COLLECTOR, d) = bnk (cs s) (A_COLLECTOR, d) - (nf_val (cs s) app d - nf_val (cs s') app d)) /\
   (forall keys, holds_C13_delta keys s (EsmRedeem app st l) s' = true).
 Proof.
-  intros assets apps funds ops app st l s' Hf Hv Hk s H.
-  pose proof (run_cinv ops _ (genesis_cinv assets apps funds Hf) Hv Hk) as HC. fold s in HC.
+  intros assets apps funds ops app st l s' Hf Hv s H.
+  pose proof (run_cinv ops _ (genesis_cinv assets apps funds Hf) Hv) as HC. fold s in HC.
   assert (H' := H). cbn [step] in H'. destruct HC as (HI & Hn & Hb).
   destruct (esm_redeem_eff _ _ _ _ _ Hn Hb H') as (_ & _ & (A1 & A2)).
   split; [exact A1|]. split; [exact A2|]. intros keys. exact (delta_holds_esm keys s _ _ _ s' (conj HI (conj Hn Hb)) H).
@@ -148,41 +148,41 @@ Qed.
 Print Assumptions c13_net_fee_delta_esm_redeem.
 
 (* "increase exactly by the fees, interest and penalties paid in, decrease exactly by what is paid
-   out": outside the known-finding classes every successful op changes the summed net fees of
+   out": after every history (no known-finding class is left) every successful op changes the summed net fees of
    each asset by exactly the change of the collector's coin balance of that asset (for
    DecreaseNetFeeCollectedData alone, which moves no coins, the books only fall).  This includes the
    savings-rate change: collector.LockerIterateRewards writes the decremented tracker, then
    DecreaseNetFeeCollectedData, then the transfer, and `continue`s when either fails; after a
-   history outside the class the transfer cannot fail once the books were lowered (the collector
-   holds at least the book entry), so the books never fall without the coins being paid *)
+   history the transfer cannot fail once the books were lowered (the collector holds at least the
+   book entry: c13_collector_backed), so the books never fall without the coins being paid *)
 Theorem c13_net_fee_flow : forall assets apps funds ops o s' la ld,
-  forallb valid_fund funds = true -> forallb valid_op ops = true -> forallb kf_free ops = true ->
-  valid_op o = true -> kf_C13_any o = false -> NoDup la ->
+  forallb valid_fund funds = true -> forallb valid_op ops = true ->
+  valid_op o = true -> NoDup la ->
   let s := run (genesis assets apps funds) ops in
   key_in la s o = true -> step s o = Ok s' -> holds_C13_flow la ld s o s' = true.
 Proof.
-  intros assets apps funds ops o s' la ld Hf Hv Hk Ho Hko Hnd s Hin H.
-  exact (flow_holds la ld s o s' Ho Hko (run_cinv ops _ (genesis_cinv assets apps funds Hf) Hv Hk) Hnd Hin H).
+  intros assets apps funds ops o s' la ld Hf Hv Ho Hnd s Hin H.
+  exact (flow_holds la ld s o s' Ho eq_refl (run_cinv ops _ (genesis_cinv assets apps funds Hf) Hv) Hnd Hin H).
 Qed.
 Print Assumptions c13_net_fee_flow.
 
 (* the collector's custody account holds, for every asset, at least the sum over any
-   duplicate-free list of apps of the recorded net fees - after every history outside the
-   known-finding class kf_C13_2 (generation-2 surplus close); the former classes kf_C13_1
-   (generation-2 penalty booked under the collateral asset) and kf_C13_3 (generation-2 debt close
-   booked the minted amount) are repaired and no longer excluded *)
+   duplicate-free list of apps of the recorded net fees - after EVERY history: the former classes
+   kf_C13_1 (generation-2 penalty booked under the collateral asset), kf_C13_2 (generation-2 surplus
+   close took the lot from the collector a second time and re-credited the books) and kf_C13_3
+   (generation-2 debt close booked the minted amount) are repaired and nothing is excluded any more *)
 Theorem c13_collector_backed : forall assets apps funds ops la ld d,
-  forallb valid_fund funds = true -> forallb valid_op ops = true -> forallb kf_free ops = true -> NoDup la ->
+  forallb valid_fund funds = true -> forallb valid_op ops = true -> NoDup la ->
   let s := run (genesis assets apps funds) ops in
   nf_total (cs s) la d <= bnk (cs s) (A_COLLECTOR, d) /\ holds_C13_backed la ld s = true.
 Proof.
-  intros assets apps funds ops la ld d Hf Hv Hk Hnd s.
-  destruct (run_cinv ops _ (genesis_cinv assets apps funds Hf) Hv Hk) as (_ & _ & Hb). fold s in Hb.
+  intros assets apps funds ops la ld d Hf Hv Hnd s.
+  destruct (run_cinv ops _ (genesis_cinv assets apps funds Hf) Hv) as (_ & _ & Hb). fold s in Hb.
   split; [exact (Hb d la Hnd)|exact (backed_holds la ld s Hb Hnd)].
 Qed.
 Print Assumptions c13_collector_backed.
 
-(* ---- inside the classes the clause is false: witnesses (replayed on the real keepers by the
+(* ---- the witnesses of the three former classes, now regressions (replayed on the real keepers by the
    harness's directed cases) ---- *)
 
 (* C13-F1 (repaired in /repo, fix: f6e2316): a generation-2 dutch close pays a 120000 penalty in the
@@ -194,29 +194,27 @@ Example c13_penalty_regression :
   nf_val (cs (run ex_genesis ex_kf1_ops)) 1 3 = 120000 /\ nf_val (cs (run ex_genesis ex_kf1_ops)) 1 2 = 0.
 Proof. exact kf1_regression. Qed.
 
-(* C13-F2: a generation-2 surplus auction: the start takes the lot out of the collector and the
-   books, the close takes the lot out of the collector AGAIN and re-credits the books: backed
-   before the close, 1000 coins against 2000 recorded after it *)
-Theorem c13_collector_backed_refuted_surplus :
-  forallb valid_op ex_kf2_ops = true /\ last_kf kf_C13_2 ex_kf2_ops = true /\
-  holds_C13_backed [1; 2] [1; 2; 3] (run ex_genesis (removelast ex_kf2_ops)) = true /\
-  holds_C13_backed [1; 2] [1; 2; 3] (run ex_genesis ex_kf2_ops) = false /\
-  holds_C13_flow [1; 2] [1; 2; 3] (run ex_genesis (removelast ex_kf2_ops)) (V2SurplusClose 1 2 500) (run ex_genesis ex_kf2_ops) = false.
-Proof. exact kf2_refuted. Qed.
-Print Assumptions c13_collector_backed_refuted_surplus.
+(* C13-F2 (repaired in /repo, fix: PENDING): a generation-2 surplus auction: the start takes the lot (500)
+   out of the collector and the books, the close pays the bidder out of the auction module account and
+   moves neither: 1500 coins against 1500 recorded (before the fix: 1000 against 2000) *)
+Example c13_surplus_close_regression :
+  forallb valid_op ex_kf2_ops = true /\
+  holds_C13_backed [1; 2] [1; 2; 3] (run ex_genesis ex_kf2_ops) = true /\
+  holds_C13_flow [1; 2] [1; 2; 3] (run ex_genesis (removelast ex_kf2_ops)) (V2SurplusClose 1 2 500) (run ex_genesis ex_kf2_ops) = true /\
+  nf_val (cs (run ex_genesis ex_kf2_ops)) 1 2 = 1500 /\ bnk (cs (run ex_genesis ex_kf2_ops)) (A_COLLECTOR, 2) = 1500.
+Proof. exact kf2_regression. Qed.
 
-(* C13-F2, consequence for the savings-rate change: once the surplus close has left the collector
-   with fewer coins (2) than the books say (1002), LockerIterateRewards lowers the books by the
-   reward (3), cannot pay it and `continue`s: books 999, coins still 2, the locker uncredited *)
-Theorem c13_net_fee_flow_refuted_rate_change_after_surplus_close :
+(* the former consequence of C13-F2 for the savings-rate change: with the books backed (502 / 502) the
+   reward (3) is taken off the books, paid and credited (before the fix: 2 coins against 1002 recorded,
+   the books lowered, the transfer failed, `continue`) *)
+Example c13_rate_change_after_surplus_close_regression :
   let s := run ex_genesis (removelast ex_kf2_rate_ops) in let s' := run ex_genesis ex_kf2_rate_ops in
-  forallb valid_op ex_kf2_rate_ops = true /\ forallb kf_free ex_kf2_rate_ops = false /\
-  bnk (cs s) (A_COLLECTOR, 2) = 2 /\ nf_val (cs s) 1 2 = 1002 /\
-  nf_val (cs s') 1 2 = 999 /\ bnk (cs s') (A_COLLECTOR, 2) = 2 /\
-  net_sum (lockers_of s' 1 2) = net_sum (lockers_of s 1 2) /\
-  holds_C13_flow [1; 2] [1; 2; 3] s (UpdLookup 1 2 50000000000000000 1000 500 500 500 [3500000000000000000]) s' = false.
-Proof. exact kf2_rate_change_unpaid. Qed.
-Print Assumptions c13_net_fee_flow_refuted_rate_change_after_surplus_close.
+  forallb valid_op ex_kf2_rate_ops = true /\
+  bnk (cs s) (A_COLLECTOR, 2) = 502 /\ nf_val (cs s) 1 2 = 502 /\
+  nf_val (cs s') 1 2 = 499 /\ bnk (cs s') (A_COLLECTOR, 2) = 499 /\
+  net_sum (lockers_of s' 1 2) = net_sum (lockers_of s 1 2) + 3 /\
+  holds_C13_flow [1; 2] [1; 2; 3] s (UpdLookup 1 2 50000000000000000 1000 500 500 500 [3500000000000000000]) s' = true.
+Proof. exact kf2_rate_change_regression. Qed.
 
 (* C13-F3 (repaired in /repo, fix: PENDING): a generation-2 debt auction close with 700 of the secondary
    asset minted for the bidder and DebtToken = 500 arriving: 500 is booked, the former witness is backed *)
